@@ -190,3 +190,18 @@ def rows(tl, cols=None):
     cols = cols or list(df.columns)
     data = [col(df, c) for c in cols]
     return [tuple(d[i] for d in data) for i in range(len(df))]
+
+
+def same_term(a, b):
+    """Definite (path-independent) equality: identical objects, syntactically equal normal forms, or equal constants."""
+    if a is b:
+        return True
+    sa, sb = isinstance(a, SymNum), isinstance(b, SymNum)
+    if sa or sb:
+        return sa and sb and a.p == b.p
+    if isna(a) or isna(b):
+        return isna(a) and isna(b)
+    try:
+        return bool(a == b)
+    except Exception:
+        return False
